@@ -255,7 +255,8 @@ def explore_load(prop, tier, seed, oracle, tags, n_quick, emit=(), with_truth=Fa
             bad = ['observing the loaded analysis raised %s: %s' % (type(e).__name__, e)]
         if bad:
             ex.fail(cid, D, bad)
-        ex.submit(cid, D, o.tags, tags, emit=emit, extra=o)
+        # (species-level files: the model follows the dissolving branch of the loader too -- compare the whole hierarchy)
+        ex.submit(cid, D, o.tags, tags + (['forest', 'genomes'] if D.meta.get('species_level') else []), emit=emit, extra=o)
     def custom(cid, D, pytags, L, o):
         out = []
         # echo of the theorems' hypotheses / conclusions, evaluated by the model on this case:
